@@ -1,5 +1,5 @@
 """C08 -- field axioms with canonical representatives."""
-from .. import fieldbig, fields, tables
+from .. import euclid, fieldbig, fields, tables
 
 
 def field_tables(ctx, families=("ref", "opt"), lite=False):
@@ -19,3 +19,5 @@ def run(ctx):
     field_tables(ctx)
     # full size: the twelve built-in 254/381-bit classes recomputed by TLC over BigNat
     fieldbig.big_tables(ctx)
+    # step level: the extended-Euclid loop of prime_field_inv as a step machine; recorded loop states validated
+    euclid.euclid_checks(ctx, which=("utils",))
